@@ -40,6 +40,12 @@ type caseSpec struct {
 	// Script (final value is a List): the list is first consumed through this access script
 	// (Head/Tail/IsEmpty/NonEmpty/Unapply calls in PRNG order), then as usual.
 	Script *scriptSpec `json:"script,omitempty"`
+	// Split (terminal "split"): the final value is handed to a tree of multi-result combinators
+	// whose outputs are consumed by an interleaving schedule (split.go).
+	Split *splitSpec `json:"split,omitempty"`
+	// FR (terminal "foldRightForce"): FoldRight with a fold function that forces its lazy argument
+	// 0..3 times (lazyarg.go).
+	FR *frSpec `json:"fold_right,omitempty"`
 }
 
 // scriptRange: the cells an access script may reach by Tail (positions 0..reach) and look at
@@ -388,6 +394,8 @@ type obs struct {
 	notes      []string     // situations observed by the terminal oracle (counter names)
 	lastName   string       // call site that produced the final value
 	script     *scriptStats // access-script phase, if any
+	split      *splitStats  // interleaved consumption of a multi-result combinator, if any
+	fr         *frStats     // FoldRight with a forcing fold function, if any
 }
 
 func (sp *caseSpec) demandForModel() int {
@@ -539,7 +547,16 @@ func exec(sp *caseSpec, site func(string)) (o obs, f *failure) {
 	}
 
 	if sp.Mode == "terminal" {
-		name, tf := runTerminal(setSite, c, sp.Term, sp.TA, sp.TB, exp, func(n string) { o.notes = append(o.notes, n) })
+		var name string
+		var tf *failure
+		switch {
+		case sp.Term == "split" && sp.Split != nil:
+			name, tf = runSplit(setSite, c, sp, exp, e, &o)
+		case sp.Term == "foldRightForce" && sp.FR != nil:
+			name, tf = runFoldRightForce(setSite, c, sp, exp, &o)
+		default:
+			name, tf = runTerminal(setSite, c, sp.Term, sp.TA, sp.TB, exp, func(n string) { o.notes = append(o.notes, n) })
+		}
 		o.names = append(o.names, name)
 		o.outLen = len(exp)
 		o.pulls = e.pulls
@@ -694,7 +711,7 @@ func shrink(sp *caseSpec, f *failure) (*caseSpec, *failure) {
 			}
 		}
 	}
-	if cur.Mode == "terminal" && cur.Term != "toSeq" {
+	if cur.Mode == "terminal" && cur.Term != "toSeq" && cur.Term != "split" && cur.Term != "foldRightForce" {
 		cand := *cur
 		cand.Term, cand.TA = "toSeq", 0
 		if _, nf := exec(&cand, nil); sameFailure(cf, nf) {
@@ -723,6 +740,12 @@ func shrink(sp *caseSpec, f *failure) (*caseSpec, *failure) {
 				break
 			}
 		}
+	}
+	if cur.Term == "split" && cur.Split != nil && cf.kind != "harness" {
+		cur, cf = shrinkSplit(cur, cf)
+	}
+	if cur.Term == "foldRightForce" && cur.FR != nil && cf.kind != "harness" {
+		cur, cf = shrinkFR(cur, cf)
 	}
 	// a failing access script: drop every call that is not needed for the failure
 	if cf.kind == "demand-order" && cur.Script != nil {
@@ -785,9 +808,14 @@ func describe(sp *caseSpec) string {
 	if sp.Script != nil {
 		fmt.Fprintf(&b, " => access script [%s], then", sp.Script.String())
 	}
-	if sp.Mode == "terminal" {
+	switch {
+	case sp.Term == "split" && sp.Split != nil:
+		fmt.Fprintf(&b, " => %s", sp.Split.String())
+	case sp.Term == "foldRightForce" && sp.FR != nil:
+		fmt.Fprintf(&b, " => %s", sp.FR.String())
+	case sp.Mode == "terminal":
 		fmt.Fprintf(&b, " => %s(ta=%d,tb=%d)", sp.Term, sp.TA, sp.TB)
-	} else {
+	default:
 		fmt.Fprintf(&b, " => first %d elements (peek=%v, tailAfterLast=%v)", sp.K, sp.Peek, sp.TailLast)
 	}
 	return b.String()
@@ -989,11 +1017,183 @@ func tieBatches(tier string) int {
 	return 4
 }
 
+// appended families (own batches after the tie batches, so that the older PRNG streams keep
+// their batch numbers): interleaved consumption of multi-result combinators (split.go) and
+// FoldRight with fold functions that force their lazy argument 0..3 times (lazyarg.go)
+func splitBatches(tier string) int {
+	if tier == "thorough" {
+		return 32
+	}
+	return 8
+}
+
+func lazyBatches(tier string) int {
+	if tier == "thorough" {
+		return 16
+	}
+	return 4
+}
+
+// family of batch b: pipeline | ties | split | lazyarg
+func familyOf(tier string, b int) string {
+	switch {
+	case b < pipelineBatches(tier):
+		return "pipeline"
+	case b < pipelineBatches(tier)+tieBatches(tier):
+		return "ties"
+	case b < pipelineBatches(tier)+tieBatches(tier)+splitBatches(tier):
+		return "split"
+	}
+	return "lazyarg"
+}
+
+// runFamilyCase runs one case of the appended families.
+func runFamilyCase(w *vrt.W, i int, family string) {
+	r := w.Rand(i)
+	var sp *caseSpec
+	if family == "split" {
+		sp = genSplitCase(r)
+	} else {
+		sp = genFoldRightCase(r)
+	}
+	w.Begin(i, family)
+	var o obs
+	var f *failure
+	w.Guard(i, func() any { return sp }, func() {
+		o, f = exec(sp, w.Site)
+		if f != nil {
+			msp, mf := shrink(sp, f)
+			mo, _ := exec(msp, nil)
+			key := keyOf(msp, mo, mf)
+			w.Violation(i, key, mf.detail+"\nminimised case: "+describe(msp)+"\noriginal case:  "+describe(sp), map[string]any{"minimised": msp, "original": sp})
+		}
+	})
+	w.Done(i)
+	if f != nil {
+		return
+	}
+	for _, n := range o.names {
+		w.Hit(n)
+	}
+	w.Add(family+".cases", 1)
+	w.Add(family+".source."+worldNames[srcWorld(sp.Src)], 1)
+	w.Add(fmt.Sprintf("%s.stages.%d", family, len(sp.Stages)), 1)
+	if st := o.split; st != nil {
+		ss := sp.Split
+		for _, k := range st.kinds {
+			w.Hit("split:" + k)
+		}
+		w.Add("split.root."+splitOpName[ss.Root.Op], 1)
+		w.Add("split.schedule."+ss.Kind, 1)
+		w.Add(fmt.Sprintf("split.outputs.%d", st.sides), 1)
+		w.Add("split.events", int64(st.events))
+		seenVia := map[string]bool{}
+		for s := 0; s < st.sides && s < len(ss.Via); s++ {
+			if !seenVia[ss.Via[s]] {
+				seenVia[ss.Via[s]] = true
+				w.Add("split.read_via."+ss.Via[s], 1)
+			}
+		}
+		if st.nested {
+			w.Add("split.cases_output_split_again", 1)
+		}
+		if st.listSides > 0 {
+			w.Add("split.cases_with_list_backed_side", 1)
+		}
+		if st.pullChecked {
+			w.Add("split.cases_pulls_checked", 1)
+			w.Max("split.max_pulls_minus_strictly_needed", int64(st.maxOverNeed))
+		}
+		if st.swaps > 0 {
+			w.Add("split.cases_leader_changed", 1)
+		}
+		if st.blindNexts > 0 {
+			w.Add("split.cases_next_without_hasnext", 1)
+		}
+		if st.exhaustedPeeks > 0 {
+			w.Add("split.cases_hasnext_on_exhausted_side", 1)
+		}
+		for _, d := range []int{1, 8, 9, 16, 17, 32, 33, 64, 65} {
+			if st.maxLead >= d {
+				w.Add(fmt.Sprintf("split.cases_lead_ge_%d", d), 1)
+			}
+			if st.leadAfterDeq >= d {
+				w.Add(fmt.Sprintf("split.cases_lead_ge_%d_after_lagging_side_read_from_buffer", d), 1)
+			}
+		}
+		switch n := st.srcLen; {
+		case n >= 130:
+			w.Add("split.input.len130plus", 1)
+		case n >= 65:
+			w.Add("split.input.len65to129", 1)
+		case n >= 9:
+			w.Add("split.input.len9to64", 1)
+		default:
+			w.Add("split.input.len0to8", 1)
+		}
+		w.Max("split.max_lead_in_source_elements", int64(st.maxLead))
+		w.Max("split.max_lead_after_lagging_side_read_from_buffer", int64(st.leadAfterDeq))
+		w.Max("split.max_input_len", int64(st.srcLen))
+		if st.swaps > 0 && st.srcLen >= 9 {
+			w.Distinct(fmt.Sprintf("split|%s|%s|%v|%d|%d|%v", sp.Src, ss.Root.String(), ss.Via, len(sp.Stages), st.srcLen, ss.Ops))
+			if w.WantSample() && len(ss.Ops) <= 14 && i%40 == 0 {
+				w.Sample(map[string]any{"split_case": describe(sp), "max_lead": st.maxLead, "leader_changes": st.swaps})
+			}
+		}
+	}
+	if st := o.fr; st != nil {
+		w.Hit("lazyarg:" + st.world + ".FoldRight")
+		w.Add("lazyarg.fold_function."+st.variant, 1)
+		w.Add("lazyarg."+st.world+".fold_function."+st.variant, 1)
+		w.Add(fmt.Sprintf("lazyarg.result_forced.%d", st.gets), 1)
+		w.Add("lazyarg.fold_function_calls", int64(st.calls))
+		w.Add("lazyarg.forces_by_get", int64(st.forces))
+		if st.short {
+			w.Add("lazyarg.cases_result_ignores_a_suffix", 1)
+		}
+		if st.forces >= 2*st.calls && st.calls > 0 {
+			w.Add("lazyarg.cases_every_call_forces_twice_or_more", 1)
+		}
+		switch n := st.n; {
+		case n >= 64:
+			w.Add("lazyarg.input.len64plus", 1)
+			if st.forces >= 2*st.calls && st.calls >= 64 {
+				w.Add("lazyarg.cases_len64plus_forced_twice_or_more_per_call", 1)
+			}
+		case n >= 9:
+			w.Add("lazyarg.input.len9to63", 1)
+		default:
+			w.Add("lazyarg.input.len0to8", 1)
+		}
+		w.Max("lazyarg.max_input_len", int64(st.n))
+		if st.n >= 2 {
+			w.Distinct(fmt.Sprintf("lazyarg|%s|%v|%v|%d|%d", sp.Src, sp.Stages, *sp.FR, st.n, len(sp.Vals)))
+			if w.WantSample() && st.n <= 8 && i%60 == 0 {
+				w.Sample(map[string]any{"lazyarg_case": describe(sp), "fold_function_calls": st.calls, "forces_by_get": st.forces})
+			}
+		}
+	}
+}
+
 func main() {
 	vrt.Main(vrt.Config{
 		Property: "C12",
-		Batches: func(tier string) int { return pipelineBatches(tier) + tieBatches(tier) },
+		Batches: func(tier string) int {
+			return pipelineBatches(tier) + tieBatches(tier) + splitBatches(tier) + lazyBatches(tier)
+		},
 		Cases: func(tier string, b int) int {
+			switch familyOf(tier, b) {
+			case "split":
+				if tier == "thorough" {
+					return 12000
+				}
+				return 3000
+			case "lazyarg":
+				if tier == "thorough" {
+					return 10000
+				}
+				return 2500
+			}
 			if b >= pipelineBatches(tier) { // tie cases run ~60 library calls each
 				if tier == "thorough" {
 					return 12000
@@ -1007,10 +1207,13 @@ func main() {
 		},
 		Run: func(w *vrt.W) {
 			for i := w.From; i < w.To; i++ {
-				if w.Batch >= pipelineBatches(w.Tier) {
-					runTieCase(w, i)
-				} else {
+				switch fam := familyOf(w.Tier, w.Batch); fam {
+				case "pipeline":
 					runCase(w, i)
+				case "ties":
+					runTieCase(w, i)
+				default:
+					runFamilyCase(w, i, fam)
 				}
 			}
 		},
